@@ -158,7 +158,7 @@ def gen_plan(seed, cfg):
         for op in ops:
             if op['op'] in ('write', 'load') and re_.random() < 0.6:
                 op['rel'] = True        # chdir into the file's directory first, then name it by its bare file name
-    return {'engine': NAME, 'seed': seed, 'swarm': swarm, 'variants': variants, 'n_paths': n_paths, 'ops': ops}
+    return {'engine': NAME, 'seed': seed, 'swarm': swarm, 'variants': variants, 'n_paths': n_paths, 'ops': ops, 'env': core.gen_env(seed)}
 
 
 def _query_all(ex, spec, Cell):
@@ -201,6 +201,8 @@ def run(req, ctx):
     def probe(name, n=1):
         probes[name] = probes.get(name, 0) + n
 
+    for k_, v_ in core.apply_env(plan.get('env')).items():
+        probe(k_, v_)
     if _LANE_DIR is None:
         lane_init()
     scratch = tempfile.mkdtemp(prefix='run-', dir=_LANE_DIR)
